@@ -2,8 +2,6 @@ package quic
 
 import (
 	"fmt"
-	"os"
-	"strconv"
 	"testing"
 
 	"github.com/refraction-networking/uquic/internal/protocol"
@@ -72,9 +70,6 @@ func (cfg *c15Cfg) rule() string {
 func c15Part(name string, mk func(thorough bool) *c15Cfg) explore.Part {
 	return explore.BFSPart(name, func(e explore.Env) explore.BFSSpec {
 		cfg := mk(e.Thorough())
-		if dd, _ := strconv.Atoi(os.Getenv("C15_DD")); dd != 0 && cfg.depth > 0 {
-			cfg.depth += dd
-		}
 		return explore.BFSSpec{
 			New:              func() explore.Instance { return newC15Inst(cfg) },
 			MaxDepth:         cfg.depth,
@@ -175,7 +170,7 @@ func TestVerifC15(t *testing.T) {
 		c15Part("out-cli", c15Out(cli, [2]int{2, 1}, [2][]int{{2, 3}, {1, 2}}, 5, 7)),
 		c15Part("in-uni-srv-l2", c15InUni(srv, 2, 8, 11)),
 		c15Part("in-uni-cli-l3", c15InUni(cli, 3, 6, 9)),
-		c15Part("in-bidi-cli-l2", c15InBidi(cli, 2, 6, 9)),
+		c15Part("in-bidi-cli-l2", c15InBidi(cli, 2, 7, 9)),
 		c15Part("in-bidi-srv-l3", c15InBidi(srv, 3, 5, 8)),
 		c15Part("mixed-srv", c15Mixed(srv, []int{c15KFin, c15KStop}, 5, 6)),
 		c15Part("mixed-cli", c15Mixed(cli, []int{c15KReset, c15KMaxData}, 5, 6)),
